@@ -63,11 +63,12 @@ def describe(fid):
 
 @classifier('F10')
 def _f10(prop, case, v):
-    # randomtable / dummytable draw from the process-wide RNG: two live
-    # iterators disturb each other.  Only interleaved schedules on exactly
-    # these two constructors, and only a value mismatch (never an exception,
-    # a length change, or a wrong fresh pass taken alone).
-    return (prop == 'C01' and case.get('view') in ('randomtable', 'dummytable')
+    # dummytable reseeds and draws from the process-wide RNG (its field
+    # callables are bound to the global `random` functions by API): two live
+    # iterators disturb each other.  Only this constructor, and only a value
+    # mismatch in rows of the right shape (never an exception or a length
+    # change).  randomtable had the same defect and was repaired.
+    return (prop == 'C01' and case.get('view') == 'x:dummytable'
             and v.get('kind') in ('iterator-diverged', 'fresh-pass-differs')
             and v.get('shape_ok', False))
 
